@@ -33,7 +33,7 @@ package http2utils
 
 //@ func AppendUint32Bytes
 //@ props C05
-//@ modifies contents(dst)
+//@ modifies capacity(dst)
 //@ ensures len: len(r0) == len(dst) + 4
 //@ ensures keep: forall(i, 0, len(dst), r0[i] == old(dst)[i])
 //@ ensures bytes: r0[len(dst)] == (n >> 24) % 256 && r0[len(dst)+1] == (n >> 16) % 256 &&
@@ -44,7 +44,7 @@ package http2utils
 //@ func Resize
 //@ props C05 C16
 //@ requires nonneg: neededLen >= 0
-//@ modifies contents(b)
+//@ modifies capacity(b)
 //@ ensures len: len(r0) == neededLen
 //@ ensures keep: forall(i, 0, min(len(b), neededLen), r0[i] == old(b)[i])
 //@ ensures place: neededLen <= cap(b) ==> samearray(r0, b) && offset(r0) == offset(b) && cap(r0) == cap(b)
@@ -52,7 +52,7 @@ package http2utils
 
 //@ func AddPadding
 //@ props C05
-//@ modifies contents(b)
+//@ modifies capacity(b)
 //@ ensures padlen: r0[0] >= 9 && r0[0] <= 255 && len(r0) == len(b) + r0[0] + 1
 //@ ensures data: forall(i, 0, len(b), r0[i+1] == old(b)[i])
 //@ ensures zero: forall(i, len(b) + 1, len(r0), r0[i] == 0)
@@ -61,7 +61,7 @@ package http2utils
 //@ props C01 C05 C16
 //@ ensures ok: r1 == nil ==> length >= 1 && length <= len(payload) && payload[0] < length &&
 //@ |   samearray(r0, payload) && offset(r0) == offset(payload) + 1 && len(r0) == length - payload[0] - 1
-//@ ensures bad: !(len(payload) >= 1 && length >= 1 && length <= len(payload) && payload[0] < length) ==> r1 != nil
+//@ ensures iff: r1 == nil <==> (len(payload) >= 1 && length >= 1 && length <= len(payload) && payload[0] < length)
 
 // ---- trusted stubs for external functions (listed as assumptions in every evidence file) ----
 
